@@ -841,8 +841,8 @@ impl<'a> G<'a> {
                 b.extend(wire(9, 0, hsid, &[b'v'; 40]));
             }
             if client == false || some_sid != 0 {
-                cands.push(("conn", 0, b.clone()));
-                cands.push(("conn", 0, b));
+                cands.push(("connflood", 0, b.clone()));
+                cands.push(("connflood", 0, b));
             }
         }
         if client {
@@ -942,6 +942,7 @@ impl<'a> G<'a> {
         self.op(format!("cn_note c09 {} {}", class, sid));
         self.peer(bytes);
         self.op("cn_poll".to_string());
+        self.op("cn_note c09 probe 0".to_string());
         // is the endpoint still answering?
         self.peer(wire(6, 0, 0, &[0xc0, 9, 0xc0, 9, 0xc0, 9, 0xc0, 9]));
         self.op("cn_poll".to_string());
